@@ -236,6 +236,17 @@ theorem linear_axis_blocks_coordinates (a s : Rat) (cs : List Nat) :
   unfold linearCoordinates
   rw [show a + s * (cs.sum : Rat) = a + (cs.sum : Rat) * s by ring, linspace_open_of_step]
 
+/-- Known finding `grid-single-point-endpoint-scan-cannot-be-partitioned`: the blocks do **not** always have positive
+extent.  `Grid` reports sampling 0 for `endpoint=True` with a single grid point (C17, F8); then every block has
+`end = start`, and `GridScan.__init__` rejects a scan whose extent is ≤ 0 along both axes — so
+`GridScan(gpts=(1, 1), endpoint=True)` cannot be partitioned at all (lazy and eager alike), although its single
+position re-assembles in the model (`grid_blocks_positions`). -/
+theorem grid_blocks_positive_extent_counterexample :
+    ¬ ∀ (a s : Rat) (cs : List Nat), ∀ b ∈ gridAxisBlocks a s cs, b.start < b.stop := by
+  intro h
+  have := h 0 0 [1] ⟨0, 0, 1⟩ (by decide +kernel)
+  exact absurd this (by decide +kernel)
+
 /-! ### WavesBuilder chunk splits -/
 
 lemma cumsum_length (a : Nat) (cs : List Nat) : (cumsum a cs).length = cs.length := by
